@@ -185,6 +185,8 @@ def check_config(rep, prog):
         ok = len(aggs) >= 1
         for ag in aggs:
             pj = T.strip(ag[2][pi], sites=True, refs=True)
+            while pj[0] == "call" and pj[1].split(" => ")[0].endswith("::clone") and len(pj[2]) == 1:      # an explicit copy of the same matrix
+                pj = T.strip(pj[2][0], sites=True, refs=True)
             ok = ok and pj[0] == "field" and pj[2] == "Camera.project" and T.strip(pj[1], sites=True, refs=True)[0] == "param"
         req(ok, "P4", "viewport-frame", b_.where(), "Camera::viewport returns the projection matrix it was given (the camera keeps no record of the projection's kind to adjust it by)")
     cp = [b2 for p, b2 in prog.bodies.items() if p.startswith("retrofire_core::render::cam::Camera::<M>::perspective") and b2.kind == "AssocFn"]
